@@ -83,6 +83,6 @@ package dict
 //@   property C11 C17
 //@   requires p != nil && len(typ) == 1
 //@   modifies
-//@   ensures [C17] supported_iff: err == nil <==> appsupported(p, code, typ[0])
+//@   ensures [C11 C17] supported_iff: err == nil <==> appsupported(p, code, typ[0])
 //@   ensures found: err == nil <==> app != nil
 //@ end
